@@ -97,6 +97,26 @@ fn check_pairs(ps: Pairs<Rule>, f: &[T], input: &str, depth: usize) -> Result<()
     // peek, tokens, flatten
     if let Some(p) = ps.peek() { same(&p, &f[0], input)?; } else if !f.is_empty() { return Err("peek None".into()); }
     if ps.clone().tokens().count() != 2 * count(f) { return Err(format!("tokens {} != {}", ps.clone().tokens().count(), 2 * count(f))); }
+    // the token stream itself: Start(rule, start) .. End(rule, end) in document order, and the same read from the back / from both ends
+    {
+        fn want_tokens(f: &[T], out: &mut Vec<(bool, Rule, usize)>) { for t in f { out.push((true, t.rule, t.start)); want_tokens(&t.kids, out); out.push((false, t.rule, t.end)); } }
+        let key = |t: pest::Token<Rule>| match t { pest::Token::Start { rule, pos } => (true, rule, pos.pos()), pest::Token::End { rule, pos } => (false, rule, pos.pos()) };
+        let mut want = vec![]; want_tokens(f, &mut want);
+        let got: Vec<_> = ps.clone().tokens().map(key).collect();
+        if got != want { return Err(format!("tokens() = {:?}, the tree gives {:?}", got, want)); }
+        let mut gotr: Vec<_> = ps.clone().tokens().rev().map(key).collect(); gotr.reverse();
+        if gotr != want { return Err(format!("tokens().rev() reversed = {:?}, the tree gives {:?}", gotr, want)); }
+        let mut it = ps.clone().tokens(); let (mut lo, mut hi) = (0usize, want.len()); let mut turn = false;
+        while lo < hi {
+            if it.len() != hi - lo { return Err(format!("Tokens::len() = {} with {} tokens left", it.len(), hi - lo)); }
+            turn = !turn;
+            let (g, w) = if turn { lo += 1; (it.next(), want[lo - 1]) } else { hi -= 1; (it.next_back(), want[hi]) };
+            if g.map(key) != Some(w) { return Err(format!("tokens() read from both ends: expected {:?}", w)); }
+        }
+        if it.next().is_some() || it.next_back().is_some() { return Err("tokens() yields after the end".into()); }
+        let dbg_tokens = format!("{:?}", ps.clone().tokens());
+        if !f.is_empty() && !dbg_tokens.contains("Start") { return Err(format!("Debug of Tokens {:?}", dbg_tokens)); }
+    }
     let mut fl = vec![]; flat(f, &mut fl);
     let got: Vec<_> = ps.clone().flatten().collect();
     if got.len() != fl.len() { return Err("flatten count".into()); }
